@@ -315,6 +315,44 @@ func sourceWords() []string {
 	return out
 }
 
+var runeLiteral = regexp.MustCompile(`'(\\?[^'\\]|\\')'`)
+
+// sourceChars: the characters the scanner's source mentions as rune literals
+// (quotes, operators, the letters of number syntax — and whatever prefix or
+// escape letter a change teaches it).
+func sourceChars() []string {
+	b, err := os.ReadFile(filepath.Join(repoDir(), "parser", "lex.go"))
+	if err != nil {
+		return nil
+	}
+	seen := map[string]bool{}
+	var out []string
+	for _, m := range runeLiteral.FindAllStringSubmatch(string(b), -1) {
+		c := m[1]
+		switch c {
+		case "\\n":
+			c = "\n"
+		case "\\t":
+			c = "\t"
+		case "\\r":
+			c = "\r"
+		case "\\'":
+			c = "'"
+		case "\\\\":
+			c = "\\"
+		}
+		if len(c) > 0 && c[0] == '\\' && len(c) > 1 {
+			continue
+		}
+		if !seen[c] {
+			seen[c] = true
+			out = append(out, c)
+		}
+	}
+	sort.Strings(out)
+	return out
+}
+
 var dictTail = []string{".", "=", "a", "#", "(", ")"}
 var dictContexts = []string{"T | join %s (U) on k", "T | join kind=inner %s (U) on k", "T | join (U) on k %s", "T | %s", "T | where a %s", "T | sort by a %s", "T | take 1 %s", "T | summarize %s", "T | project %s", "T | render x %s", "T | as x %s", "%s", "let %s"}
 
@@ -353,6 +391,32 @@ func TestC08Dictionary(t *testing.T) {
 		t.Fatalf("harness: only %d dictionary words found under %s", len(words), repoDir())
 	}
 	failed := false
+	// the scanner's own characters in front of string and number endings
+	if env.Shard == 0 {
+		chars := append(sourceChars(), "h", "H", "r", "b", "u", "@")
+		for _, c1 := range chars {
+			for _, c2 := range append([]string{""}, chars...) {
+				for _, tail := range []string{"'abc", "\"abc", "'a'", "\"a\"", "1", "`a`", "- ", "+"} {
+					for _, ctx := range []string{"T | where x == %s", "T | extend y = %s | count", "let v = %s; T"} {
+						if failed {
+							break
+						}
+						src := fmt.Sprintf(ctx, c1+c2+tail)
+						st.Eval()
+						msg, accepted, _ := checkAccept(src)
+						if accepted {
+							st.Class("accepted")
+							st.NonTrivialExact(1)
+						}
+						if msg != "" {
+							failed = true
+							st.Violation(t, "C08", "accept", mkStrCase(src), "%+q: %s", src, msg)
+						}
+					}
+				}
+			}
+		}
+	}
 	for wi, w := range words {
 		if wi%env.NShards != env.Shard {
 			continue
